@@ -711,6 +711,11 @@ mono_leaf PresM.writeVar
 theorem PresM.disallowFutureUse (o) : Pres (Still x) (disallowFutureUse o) := by
   unfold Engine.disallowFutureUse; mpres
 mono_leaf PresM.disallowFutureUse
+/-- dropping a `Var` handle touches `vars` and `deadVars` only -/
+theorem PresM.dropVarHandle (v) : Pres (Still x) (dropVarHandle v) := by
+  unfold Engine.dropVarHandle; mpres
+mono_leaf PresM.dropVarHandle
+mono_leaf PresS.withVarHandle
 theorem PresM.runEffectBasic (env e) : Pres (Still x) (runEffectBasic env e) := by
   unfold Engine.runEffectBasic; mpres
 mono_leaf PresM.runEffectBasic
